@@ -332,14 +332,21 @@ func buildOperation(key string, r *expr.RouteExpr, bodies *EndpointBodies, rand 
 		}
 	}
 
-	// An endpoint can have multiple routes, so we need to be able to build a unique
-	// operationId for each route.
+	// An endpoint can have multiple routes and a route can have multiple full
+	// paths (one per base path), so we need to be able to build a unique
+	// operationId for each of them.
 	var routeIndex int
-	for i, rt := range e.Routes {
+	for _, rt := range e.Routes {
 		if rt == r {
-			routeIndex = i
+			for i, p := range rt.FullPaths() {
+				if expr.HTTPWildcardRegex.ReplaceAllString(p, "/{$1}") == key {
+					routeIndex += i
+					break
+				}
+			}
 			break
 		}
+		routeIndex += len(rt.FullPaths())
 	}
 
 	// An endpoint may be marked as deprecated. if the openapi:deprecated tag is present, we populate it to true
